@@ -38,6 +38,9 @@ def declare(reg):
 
     # what the memo tables hold: a rule result, a remembered failure (exception class + identity) or nothing
     S.declare_union('Outcome', [('o_none', []), ('o_ok', [('res', 'RuleResultR')]), ('o_err', [('cls', 'int'), ('eid', 'int')])])
+    S.declare_record('RGB', [('r', 'int'), ('g', 'int'), ('b', 'int')])
+    # a colour attribute of a Style: an index (-1 = unset, 0..255) or an RGB triple
+    S.declare_union('ColorSpec', [('c_idx', [('i', 'int')]), ('c_rgb', [('rgb', 'RGB')])])
     S.declare_record('ConfigR', [
         ('left_recursion', 'bool'), ('memoization', 'bool'), ('prune_memos_on_cut', 'bool'), ('parseinfo', 'bool'),
         ('ignorecase', 'bool'), ('trace', 'bool'), ('keywords', 'strset'), ('semantics', 'int'),
@@ -48,6 +51,10 @@ def declare(reg):
     reg.classes['BDict'] = {'mro': ['tatsu/util/boundeddict.py:BoundedDict'],
                             'fields': {'okeys': 'seq[MemoKeyR]', 'ovals': 'arr[MemoKeyR,Outcome]', 'capacity': 'int'},
                             'wf': ['self.capacity >= 1'], 'isa': ['dict', 'BoundedDict']}
+    reg.classes['StyleP'] = {'mro': ['tatsu/ztyle/style.py:Style'], 'fields': {
+        'enabled': 'bool', 'value': 'str', '_fmt': 'Val', '_fg': 'ColorSpec', '_bg': 'ColorSpec', '_bold': 'bool', '_dim': 'bool', '_italic': 'bool',
+        '_underline': 'bool', '_blink': 'bool', '_inverse': 'bool', '_hidden': 'bool', '_strikethrough': 'bool'}, 'isa': ['Style', 'str']}
+    reg.classes['RGB'] = {'mro': [], 'isa': ['RGB']}
     reg.classes['MemoD'] = {
         'mro': [], 'fields': {'mkeys': 'arr[MemoKeyR,bool]', 'mvals': 'arr[MemoKeyR,Outcome]'}, 'isa': ['dict'],
     }
